@@ -44,3 +44,20 @@ pub open spec fn StakeDeregistration_enc(x: StakeDeregistration) -> Seq<Tok> {
 }
 // pool_registration = (3, pool_params)   with pool_params the nine fields inline: an array of 10
 pub open spec fn PoolRegistration_enc(x: PoolRegistration) -> Seq<Tok> { seq![Tok::Arr(10), Tok::UInt(3)] + PoolParams_enc(x.pool_params).skip(1) }
+// voting_procedures = { + voter => { + gov_action_id => voting_procedure } }: a voter without votes is not written, and the outer
+// length is the number of voters that ARE written
+pub open spec fn vp_cnt(s: Seq<(Voter, Vec<(GovernanceActionId, VotingProcedure)>)>) -> nat decreases s.len() {
+    if s.len() == 0 { 0 } else { vp_cnt(s.drop_last()) + (if s.last().1@.len() > 0 { 1nat } else { 0nat }) }
+}
+pub open spec fn vp_body(s: Seq<(Voter, Vec<(GovernanceActionId, VotingProcedure)>)>) -> Seq<Tok> decreases s.len() {
+    if s.len() == 0 { Seq::empty() } else {
+        vp_body(s.drop_last()) + (if s.last().1@.len() > 0 { s.last().0.enc() + seq![Tok::Map(s.last().1@.len() as u64)] + flat2(s.last().1@) } else { Seq::empty() })
+    }
+}
+pub proof fn lemma_vp_step(s: Seq<(Voter, Vec<(GovernanceActionId, VotingProcedure)>)>, i: int)
+    requires 0 <= i < s.len()
+    ensures vp_cnt(s.take(i + 1)) == vp_cnt(s.take(i)) + (if s[i].1@.len() > 0 { 1nat } else { 0nat }), vp_cnt(s.take(i)) <= i,
+            vp_body(s.take(i + 1)) == vp_body(s.take(i)) + (if s[i].1@.len() > 0 { s[i].0.enc() + seq![Tok::Map(s[i].1@.len() as u64)] + flat2(s[i].1@) } else { Seq::empty() })
+    decreases i
+{ assert(s.take(i + 1).drop_last() =~= s.take(i)); if i > 0 { lemma_vp_step(s, i - 1); } }
+pub open spec fn VotingProcedures_enc(x: VotingProcedures) -> Seq<Tok> { seq![Tok::Map(vp_cnt(x.0@) as u64)] + vp_body(x.0@) }
